@@ -60,6 +60,36 @@ func (n *zeroBasePtrNode) Post(ctx context.Context, s *flyt.SharedStore, p, e an
 	return flyt.Action(n.post), nil
 }
 
+// panicNode: one of its phases panics with a value that is neither an error nor a string (an abort signal, a
+// status code). Whatever the library does about a panicking callback (today: the panic propagates), the run must
+// not come back as a success with the empty action.
+type panicNode struct {
+	*flyt.BaseNode
+	phase string
+	val   any
+}
+
+func (n *panicNode) Prep(ctx context.Context, s *flyt.SharedStore) (any, error) {
+	if n.phase == "prep" {
+		panic(n.val)
+	}
+	return nil, nil
+}
+func (n *panicNode) Exec(ctx context.Context, p any) (any, error) {
+	if n.phase == "exec" {
+		panic(n.val)
+	}
+	return nil, nil
+}
+func (n *panicNode) Post(ctx context.Context, s *flyt.SharedStore, p, e any) (flyt.Action, error) {
+	if n.phase == "post" {
+		panic(n.val)
+	}
+	return "custom", nil
+}
+
+type abortSignal struct{ Code int }
+
 type probeNode struct {
 	*flyt.BaseNode
 	visited *int
@@ -98,6 +128,29 @@ func runActCase(cs *ActCase) (fs []finding) {
 			defer cancel()
 			runCtx, br.cancel = cctx, cancel
 		}
+	case "panicking-callback":
+		vals := map[string]any{"int": 42, "struct": abortSignal{3}, "ptr": &abortSignal{4}, "nil-error-iface": (*scen.NilableErr)(nil), "bool": false}
+		pn := &panicNode{BaseNode: flyt.NewBaseNode(), phase: cs.Shape, val: vals[cs.Build]}
+		var act flyt.Action
+		var err error
+		panicked := func() (p bool) {
+			defer func() {
+				if recover() != nil {
+					p = true
+				}
+			}()
+			if cs.Routed {
+				f := flyt.NewFlow(pn)
+				act, err = flyt.Run(context.Background(), f, flyt.NewSharedStore())
+			} else {
+				act, err = flyt.Run(context.Background(), pn, flyt.NewSharedStore())
+			}
+			return false
+		}()
+		if !panicked && err == nil && act == "" {
+			add("empty-action:panicking-callback:"+cs.Shape, "the %s callback panicked with a value of kind %s; the run came back as a SUCCESS with the empty action (routed inside a flow: %v)", cs.Shape, cs.Build, cs.Routed)
+		}
+		return
 	case "batch-post-by-option":
 		// whatever the library does with a post function given as a constructor option (today: the batch's own default
 		// post stays in charge), a successful run reports a non-empty action
@@ -301,6 +354,13 @@ func runC18(c *Cfg) {
 			cases = append(cases, &ActCase{Family: "grid", Kind: "zero-basenode-by-value", Post: post, Routed: routed, FailAt: -1}, &ActCase{Family: "grid", Kind: "zero-basenode-by-pointer", Post: post, Routed: routed, FailAt: -1})
 			cases = append(cases, &ActCase{Family: "grid", Kind: "flow", Post: post, Routed: routed, FailAt: -1}, &ActCase{Family: "grid", Kind: "flow-in-flow", Post: post, Routed: routed, FailAt: -1})
 			cases = append(cases, &ActCase{Family: "grid-flow-ending-on-nil-connection", Kind: "flow", Post: post, Routed: routed, FailAt: -1, NilEnd: true}, &ActCase{Family: "grid-flow-ending-on-nil-connection", Kind: "flow-in-flow", Post: post, Routed: routed, FailAt: -1, NilEnd: true})
+			if post == "" {
+				for _, ph := range []string{"prep", "exec", "post"} {
+					for _, vk := range []string{"int", "struct", "ptr", "nil-error-iface", "bool"} {
+						cases = append(cases, &ActCase{Family: "grid-panicking-callback", Kind: "panicking-callback", Post: post, Routed: routed, FailAt: -1, Shape: ph, Build: vk})
+					}
+				}
+			}
 			if !routed {
 				for n := 0; n <= 3; n++ {
 					for cc := 0; cc <= 2; cc++ {
